@@ -232,8 +232,50 @@ def _replay_case(ctx, case, tries=4):
         sig = {"class": cls, "api": api, "kind": case.get("kind"), "panic": str(bad.get("err", "")).startswith("panic")}
         ctx.violation("C15 %s (%s case): %s" % (api, case.get("kind"), _describe(case, bad, cls)), sig=sig, case=case)
         return cls
+    # The readings of the points the property leaves open are traits of the implementation and are
+    # narrowed over the whole trace: a case may be inexplicable only under the reading that earlier
+    # files of the run have fixed.  Re-record it once more and validate it after those files.
+    context = case.get("_context") or []
+    if context:
+        d = ctx.subdir("replay")
+        cp = os.path.join(d, "case.json")
+        json.dump(case, open(cp, "w"))
+        tp = os.path.join(d, "trace.ndjson")
+        ctx.run([binp, "one", cp, tp])
+        new = vlib.read_ndjson(tp)
+        vlib.write_ndjson(tp, context + new)
+        ok, line, res = ctx.validate_trace(TRACE, tp, label="replay of one case after its context (strict)", traces=0)
+        if not ok and line is not None and line > len(context):
+            bad = new[line - len(context) - 1]
+            cls = "inconsistent-reading"
+            api = "FindLookups" if bad["ev"] == "find" else "NewLayouter/Layout"
+            sig = {"class": cls, "api": api, "kind": case.get("kind"), "panic": False}
+            what = ("C15 %s (%s case): the answer can only be explained by reading an open point of the property "
+                    "(switching off the synthetic liga feature / minimum+override kern subtables) differently than the "
+                    "answers for %d earlier file(s) of the same run demand - or, under the one reading, it is wrong; %s"
+                    % (api, case.get("kind"), sum(1 for e in context if e["ev"] == "reset"),
+                       _describe(case, bad, "wrong-result")))
+            ctx.violation(what, sig=sig, case=case)
+            return cls
+        if not ok and line is None:
+            raise vlib.Infra("trace validation of a replay failed without a rejected line:\n" + res.error_text[-1500:])
     ctx.notes.append("a rejected case (kind %s) did not reproduce in %d isolated re-recordings" % (case.get("kind"), tries))
     raise vlib.Infra("rejection of a %s case did not reproduce in isolation" % case.get("kind"))
+
+
+def _context(events, cid):
+    """The earlier cases of the trace that can fix a reading: files without GSUB, or with a kern table only."""
+    out = []
+    keep = False
+    for e in events:
+        if e.get("case") == cid:
+            break
+        if e["ev"] == "reset":
+            f = e["font"]
+            keep = bool(f["read"]) and (not f["gsub"]["present"] or (f["kern"]["present"] and not f["gpos"]["present"]))
+        if keep:
+            out.append(e)
+    return out
 
 
 def _validate_file(ctx, trace, label, stats):
@@ -257,7 +299,9 @@ def _validate_file(ctx, trace, label, stats):
         cid = bad.get("case")
         if cid not in cases:
             raise vlib.Infra("rejected line %d has no case" % line)
-        cls = _replay_case(ctx, cases[cid])
+        case = dict(cases[cid])
+        case["_context"] = _context(events, cid)
+        cls = _replay_case(ctx, case)
         rounds += 1
         if rounds >= 4:
             ctx.notes.append("%s: stopped after %d reproduced violations" % (label, rounds))
